@@ -2,10 +2,13 @@
 package main
 
 import (
+	"encoding/json"
 	"flag"
 	"fmt"
 	"os"
+	"os/exec"
 	"path/filepath"
+	"regexp"
 	"sort"
 	"strconv"
 )
@@ -91,5 +94,100 @@ func main() {
 		r.Stat("repo_functions", len(p.Funcs))
 		d.run(r, p)
 	}
+	if *tier == "thorough" && os.Getenv("VLCHECK_NO_SELFTEST") == "" {
+		selfTest(r, *repo, *verif)
+	}
 	r.Finish(*verif)
+}
+
+// selfTest (thorough tier): every independently written breaking change filed under <verif>/seeded that this
+// property's check is recorded to report is applied to a scratch copy of the CURRENT /repo tree (outside /repo and
+// /verif, removed afterwards) and the quick check is run against the copy in a separate process. The result is
+// recorded in the evidence; it never influences the verdict on /repo (if /repo was edited a patch may simply not apply).
+func selfTest(r *Run, repo, verif string) {
+	type res struct {
+		ID       string   `json:"id"`
+		Outcome  string   `json:"outcome"` // detected | missed | not_applicable
+		Rules    []string `json:"rules,omitempty"`
+		Expected []string `json:"expected_rules,omitempty"`
+	}
+	metas, _ := filepath.Glob(filepath.Join(verif, "seeded", "*", "meta.json"))
+	sort.Strings(metas)
+	exe, err := os.Executable()
+	if err != nil {
+		return
+	}
+	var out []res
+	applied, detected, na := 0, 0, 0
+	for _, mf := range metas {
+		b, err := os.ReadFile(mf)
+		if err != nil {
+			continue
+		}
+		var meta struct {
+			ID      string              `json:"id"`
+			Reports map[string][]string `json:"checks_reporting"`
+		}
+		if json.Unmarshal(b, &meta) != nil {
+			continue
+		}
+		exp, mine := meta.Reports[r.Property]
+		if !mine {
+			continue
+		}
+		tmp, err := os.MkdirTemp("", "vlcheck-selftest-")
+		if err != nil {
+			continue
+		}
+		func() {
+			defer os.RemoveAll(tmp)
+			tree := filepath.Join(tmp, "tree")
+			ev := filepath.Join(tmp, "verif")
+			os.MkdirAll(filepath.Join(ev, "evidence"), 0o755)
+			os.WriteFile(filepath.Join(ev, "MANIFEST.json"), []byte("{}"), 0o644)
+			if kf, err := os.ReadFile(filepath.Join(verif, "known_findings.json")); err == nil {
+				os.WriteFile(filepath.Join(ev, "known_findings.json"), kf, 0o644)
+			}
+			if err := exec.Command("rsync", "-a", "--exclude", ".git", repo+"/", tree+"/").Run(); err != nil {
+				out = append(out, res{ID: meta.ID, Outcome: "not_applicable"})
+				na++
+				return
+			}
+			ap := exec.Command("patch", "-p1", "-s", "-f", "-i", filepath.Join(filepath.Dir(mf), "patch.diff"))
+			ap.Dir = tree
+			if err := ap.Run(); err != nil {
+				out = append(out, res{ID: meta.ID, Outcome: "not_applicable", Expected: exp})
+				na++
+				return
+			}
+			applied++
+			c := exec.Command(exe, "-property", r.Property, "-tier", "quick", "-repo", tree, "-verif", ev)
+			c.Env = append(os.Environ(), "VLCHECK_NO_SELFTEST=1")
+			o, _ := c.CombinedOutput()
+			code := c.ProcessState.ExitCode()
+			var rules []string
+			seen := map[string]bool{}
+			for _, m := range regexp.MustCompile(`\[`+r.Property+`\.(\w+)\]`).FindAllStringSubmatch(string(o), -1) {
+				if !seen[m[1]] {
+					seen[m[1]] = true
+					rules = append(rules, m[1])
+				}
+			}
+			sort.Strings(rules)
+			if code == 1 {
+				detected++
+				out = append(out, res{ID: meta.ID, Outcome: "detected", Rules: rules, Expected: exp})
+			} else {
+				out = append(out, res{ID: meta.ID, Outcome: "missed", Expected: exp})
+			}
+		}()
+	}
+	r.extra["selftest"] = map[string]interface{}{
+		"what":           "seeded breaking changes (written by sub-agents that saw only the property text) applied one at a time to a scratch copy of the current tree; the quick check must report each",
+		"applied":        applied,
+		"detected":       detected,
+		"not_applicable": na,
+		"results":        out,
+	}
+	fmt.Printf("  selftest: %d seeded change(s) applied to a scratch copy, %d detected, %d not applicable\n", applied, detected, na)
 }
